@@ -667,7 +667,7 @@ func checkSingleWrite(p *an.Prog, r *an.Run, d *types.Named, kind string, m *ssa
 		// loaded from the same key
 		loaded := false
 		for _, o := range ops {
-			if o.Kind != opRead || o.Key != w.Key && !sameSpaceKey(o, w) {
+			if o.Kind != opRead || o.Key != w.Key && !sameSpaceKey(o, w) && !(o.Key != nil && w.Key != nil && sameLoad(o.Key, w.Key)) {
 				continue
 			}
 			if kind == "badger" {
